@@ -172,6 +172,11 @@ def run_case(case):
         sp3 = copy.deepcopy(spec)
         sp3["pad_before"] = int(rng.choice([1, 7, 120, 400]))
         sp3["pad_after"] = int(rng.choice([1, 7, 120, 400]))
+        if sp3["pad_before"] >= 7 and rng.random() < 0.6:
+            # the extra records need not be contiguous: holes before and after the window
+            sp3["pad_gap"] = {"before": [int(x) for x in rng.integers(2, sp3["pad_before"], 2)],
+                              "after": [int(x) for x in rng.integers(2, max(3, sp3["pad_after"]), 2)]}
+            cov["padding_pairs_with_gaps"] += 1
         eps = sp3["weather"].setdefault("episodes", [])
         eps.append({"var": "ReferenceET", "from": gen.fmt(S0 - dt.timedelta(days=sp3["pad_before"])),
                     "days": sp3["pad_before"], "value": 9.5})
@@ -204,6 +209,10 @@ def run_case(case):
             if not cd:
                 cov["extension_pairs_thermal"] += 1
             hs = int(B.summary["Harvest Date (Step)"].iloc[-1])
+            if cd:
+                # a calendar-day crop has no look-ahead at all: every day the shorter run executed
+                # (an unfinished last season included) must be reproduced by the longer one
+                hs = max(hs, steps_t[-1] - 1)
             cov["rows_compared"] += hs + 1
             label = f"end date moved {ext} days later"
             if cmp_rows(acc, "completed-season-depends-on-end-date", label, A, P.tables, hs + 1, dict(ext=ext)):
